@@ -64,12 +64,15 @@ def values_for(t, rng):
 def int_cases(rng, per_type_extra):
     cases = []
     for t in TYPES:
+        lo, _hi = rng_of(t)
         for v in values_for(t, rng):
             neg = v < 0
             if neg and not t.startswith("i"):
                 continue
             mag = -v if neg else v
-            bases = [10] if neg else [10, 16, 2]
+            # a negated 0x / 0b literal of a signed type is not folded by the parser: the minimum of the type spelled this way is
+            # in range as an expression but its literal part is not (F2b)
+            bases = ([10, 16, 2] if (v == lo and t != "i128") else [10]) if neg else [10, 16, 2]
             for b in bases:
                 for sfx in ("", t):
                     sp = spell(rng, mag, b) + sfx
